@@ -956,7 +956,7 @@ class Evaluator:
                     return fr.elem[0]
             i = _as_rat(idx)
             if i is not None:
-                return Rat.atom("%s[%s]" % (base.key(), _canon(i)))
+                return fatom("el:" + base.key(), i)
             raise Undecided("sequence element at %s" % unparse(sl), fr.f.loc(node))
         if isinstance(base, (list, tuple)):
             i = _as_rat(idx)
@@ -1084,6 +1084,14 @@ class Evaluator:
             raise Undecided("unresolved call %s" % unparse(node)[:60], fr.f.loc(node))
         if callee.key in self.opaque_calls:
             oc = self.opaque_calls[callee.key]
+            if callable(oc):
+                ps = callee.params()[1:] if callee.cls else callee.params()
+                b = {}
+                for i, a in enumerate(args):
+                    b[ps[i] if i < len(ps) else "*%d" % i] = self.eval(a, env, fr)
+                for k, v in kw.items():
+                    b[k] = self.eval(v, env, fr)
+                return oc(b)
             return oc if isinstance(oc, Rat) else Rat.atom(oc)
         if callee.mod.rel == tab.AA and not callee.cls:
             try:
@@ -1313,6 +1321,17 @@ def abs_atom(v):
     return Rat.atom(name)
 
 
+def deep_atoms(r):
+    """atoms of r including those inside the arguments of function atoms"""
+    out = set()
+    for a in r.atoms():
+        out.add(a)
+        if a in FUNC_REG:
+            for x in FUNC_REG[a][1]:
+                out |= deep_atoms(x)
+    return out
+
+
 def subst_deep(r, mapping):
     """substitution that also rewrites the arguments of function atoms"""
     m = dict(mapping)
@@ -1507,7 +1526,7 @@ def _index_uses(loop, var):
 
 
 def is_window_atom(a):
-    return a.startswith(("@", "wpos", "wneg", "wneut", "wcnt[", "wsum[", "cp[", "seq[", "map:"))
+    return a.startswith(("@", "wpos", "wneg", "wneut", "wcnt[", "wsum[", "el:"))
 
 
 def _sum_ratio(a, b):
